@@ -188,6 +188,9 @@ type verifEvents struct {
 	Calls []verifEvCall
 	Err   error                 // nil, datatransfer.ErrPause or another error
 	Resp  datatransfer.Response // message returned by OnRequestReceived / OnDataQueued (may be nil)
+	// OnReq, when set, runs inside OnRequestReceived: the manager applies the channel's transport
+	// options (Transport.UseStore / MaxLinks) from inside that callback.
+	OnReq func(chid datatransfer.ChannelID)
 }
 
 func (e *verifEvents) OnChannelOpened(chid datatransfer.ChannelID) error {
@@ -218,6 +221,9 @@ func (e *verifEvents) OnTransferInitiated(chid datatransfer.ChannelID) {
 }
 func (e *verifEvents) OnRequestReceived(chid datatransfer.ChannelID, msg datatransfer.Request) (datatransfer.Response, error) {
 	e.Calls = append(e.Calls, verifEvCall{Op: evRequest, Chid: chid, Msg: msg})
+	if e.OnReq != nil {
+		e.OnReq(chid)
+	}
 	return e.Resp, e.Err
 }
 func (e *verifEvents) OnChannelCompleted(chid datatransfer.ChannelID, err error) error {
